@@ -51,10 +51,12 @@ def observe (d : DS) (s : S) : DS × String :=
   let ahash := s.accepted.foldl (fun h x => (h ^^^ x.toUInt64) * 1099511628211) d.ahash
   let ctl := String.intercalate "," ((s.ctl.drop d.nctl).map (showCtl d.g))
   let items := String.intercalate "," (s.wl.map showItem)
-  let pend := pending d.g s.wl
+  -- length and FNV hash of `pending d.g s.wl` without building it (4 MiB file ranges): `pending_length`, `foldPending_eq`
+  let pendLen := backlog s.wl
+  let pendHash := foldPending d.g (fun (h : UInt64) x => (h ^^^ x.toUInt64) * 1099511628211) s.wl 14695981039346656037
   let acc := if s.closed then "-" else s!"{alen}:{ahash}"
   let edge := if d.g.mode == .et && s.reg && !s.closed then b2s s.edgeDue else "-"
-  let str := s!"closed={b2s s.closed} left={s.left} wl=[{items}] pend={pend.length}:{Drv.fnv pend} acc={acc} wadded={b2s s.isWAdded} reg={b2s s.reg} kout={b2s (s.reg && s.kOut)} dis={b2s s.disarmed} edge={edge} ctl=[{ctl}] wire={wlen}:{whash} onclose={s.onClose} wtimer={b2s s.wTimer}"
+  let str := s!"closed={b2s s.closed} left={s.left} wl=[{items}] pend={pendLen}:{pendHash} acc={acc} wadded={b2s s.isWAdded} reg={b2s s.reg} kout={b2s (s.reg && s.kOut)} dis={b2s s.disarmed} edge={edge} ctl=[{ctl}] wire={wlen}:{whash} onclose={s.onClose} wtimer={b2s s.wTimer}"
   ({ d with s := { s with wire := [], accepted := [] }, wlen, whash, alen, ahash, nctl := s.ctl.length }, str)
 
 inductive Call
